@@ -195,6 +195,10 @@ def update_resource_class(req):
         raise webob.exc.HTTPBadRequest(
             'Cannot update standard resource class %(rp_name)s' %
             {'rp_name': name})
+    except exception.ResourceClassNotFound:
+        # Deleted by another request since it was looked up above.
+        raise webob.exc.HTTPNotFound(
+            'No such resource class %(name)s' % {'name': name})
 
     req.response.body = encodeutils.to_utf8(jsonutils.dumps(
         _serialize_resource_class(req.environ, rc))
